@@ -199,6 +199,12 @@ def run_moves(case, ctx):
             r = check('relabel_shift_in2', lambda: f.relabel_shift_in(['k2', 'k1']), lambda: ([(key_of(index[i]), key_of(k2[i]), key_of(k1[i])) for i in range(n)], without(base, 'k1', 'k2')))
             if r is not None:
                 check('relabel_shift_in2.shift_out', lambda: r.relabel_shift_out([1, 2]), lambda: ([(key_of(x),) for x in index], base))
+                # the depths named in another order: every column still carries the labels of the depth it is named after
+                check('relabel_shift_in2.shift_out[2,1]', lambda: r.relabel_shift_out([2, 1]), lambda: ([(key_of(x),) for x in index], base))
+                check('relabel_shift_in2.shift_out[2]-then-[1]', lambda: r.relabel_shift_out([2]).relabel_shift_out([1]), lambda: ([(key_of(x),) for x in index], base))
+                # and on the other axis: shift index depths of the transposed frame out of its columns
+                rt = r.transpose()
+                check('relabel_shift_in2.T.shift_out[2,1](axis=1)', lambda: rt.relabel_shift_out([2, 1], axis=1).transpose(), lambda: ([(key_of(x),) for x in index], base))
             # the operand is untouched
             if not all(same_row(a, b) for a, b in zip(row_dicts(f), base)) or labels_of(f.index) != [(key_of(x),) for x in index]:
                 ctx.violation('moves|operand-changed', **info)
@@ -283,6 +289,20 @@ def run_stack(case, ctx):
                     extra = [p for p, vs in gk.items() if p not in bk and any(not is_missing(v) for v in vs)]
                     if extra:
                         ctx.violation(f'{first}.{second}|non-fill-extra-cell|{name}', **info, extra=extra[:3])
+                # with an explicit fill value that needs a wider dtype of the column's own kind: every cell without a source holds exactly that value
+                fill = {'float64': -0.1, '<U2': 'missing-value', 'float32': 0.1, 'int8': 10 ** 9}[pattern[0]]
+                try:
+                    midf = getattr(f, first)(fill_value=fill)
+                    mc = cells(midf)
+                    srcs = {tuple(sorted(map(repr, r + cc))): v for (r, cc), v in base.items()}
+                    for (r, cc), v in mc.items():
+                        parts = tuple(sorted(map(repr, r + cc)))
+                        want = srcs.get(parts, fill)
+                        if not eqv(v, want):
+                            ctx.violation(f'{first}(fill_value)|cell', **info, fill=repr(fill), cell=parts, got=norm(v), expected=norm(want))
+                            break
+                except Exception as e:
+                    ctx.violation(f'{first}(fill_value)|raises|{type(e).__name__}', **info, fill=repr(fill), error=repr(e))
                 bc = cells(back)
                 if not all(k in bc and eqv(bc[k], v) for k, v in base.items()):
                     ctx.violation(f'{first}.{second}|round-trip-labels', **info, got=sorted(map(repr, bc))[:8], expected=sorted(map(repr, base))[:8])
